@@ -65,7 +65,9 @@ def str_to_num(s: str, fmt: str) -> Any[float, int]:
         minutes = num_match_groups[1]
         seconds = num_match_groups[2] if fraction_length in (6, 8, 9) else 0
 
-        return float(wholes) + (float(minutes) / 60) + (float(seconds) / 3600)
+        # the sign applies to the whole magnitude, not only to the first field
+        value = abs(float(wholes)) + (float(minutes) / 60) + (float(seconds) / 3600)
+        return -value if wholes.startswith("-") else value
 
     if "." in s:
         return float(s)
@@ -82,26 +84,27 @@ def num_to_str(n: Optional[float], fmt: str) -> Optional[str]:
         fraction_length = int(sexagesimal_match.groups()[1])
         assert fraction_length in (3, 5, 6, 8, 9)
 
-        w = math.floor(n)
-        m = (n - w) * 60
+        # same algorithm as fs_sexa() in INDI Library: the sign applies to the
+        # whole magnitude, which is rounded once to an integral number of the
+        # smallest unit and then split, so no field can reach 60
+        fraction_base = {3: 60, 5: 600, 6: 3600, 8: 36000, 9: 360000}[fraction_length]
+        sign = "-" if n < 0 else ""
+        total = math.floor(abs(n) * fraction_base + 0.5)
+        w, f = divmod(total, fraction_base)
 
         if fraction_length == 3:
-            return f"{w}:{m:02.0f}"
+            return f"{sign}{w}:{f:02d}"
 
         if fraction_length == 5:
-            return f"{w}:{m:04.1f}"
-
-        mf = math.floor(m)
-        s = (m - mf) * 60
-        m = mf
+            return f"{sign}{w}:{f // 10:02d}.{f % 10:d}"
 
         if fraction_length == 6:
-            return f"{w}:{m:02d}:{s:02.0f}"
+            return f"{sign}{w}:{f // 60:02d}:{f % 60:02d}"
 
         if fraction_length == 8:
-            return f"{w}:{m:02d}:{s:04.1f}"
+            return f"{sign}{w}:{f // 600:02d}:{f % 600 // 10:02d}.{f % 10:d}"
 
         if fraction_length == 9:
-            return f"{w}:{m:02d}:{s:05.2f}"
+            return f"{sign}{w}:{f // 6000:02d}:{f % 6000 // 100:02d}.{f % 100:02d}"
 
     return fmt % n
